@@ -27,7 +27,12 @@ Follow == <<
   Fr(4, CatCol(<<"w", "x", "y", "z">>, {}, U4, FALSE), NumCol(<<1, 1, 2, 1>>, {})),          \* unseen level w (and possibly z)
   Fr(3, NumCol(<<1, 2, 3>>, {}), NumCol(<<5, 6, 7>>, {})),                                    \* A arrives numeric
   Fr(3, CatCol(<<"x", "y", "x">>, {}, U4, FALSE), CatCol(<<"p", "q", "p">>, {}, <<"p", "q">>, FALSE)),   \* a arrives as text
-  Fr(3, CatCol(<<"x", "", "y">>, {2}, U4, FALSE), NumCol(<<0, 2, 3>>, {1})) >>              \* nulls
+  Fr(3, CatCol(<<"x", "", "y">>, {2}, U4, FALSE), NumCol(<<0, 2, 3>>, {1})),              \* nulls
+  \* follow-up columns of categorical dtype whose DECLARED categories differ from the recorded levels: the recorded levels win
+  Fr(3, CatCol(<<"x", "y", "x">>, {}, <<"x", "y">>, TRUE), NumCol(<<3, 1, 2>>, {})),                       \* fewer categories (unused removed)
+  Fr(3, CatCol(<<"x", "y", "z">>, {}, <<"y", "z", "x">>, TRUE), NumCol(<<4, 0, 2>>, {})),                  \* same categories, another order
+  Fr(4, CatCol(<<"x", "y", "z", "x">>, {}, <<"w", "x", "y", "z">>, TRUE), NumCol(<<1, 5, 2, 2>>, {})),     \* an extra, unobserved category
+  Fr(2, CatCol(<<"y", "y">>, {}, <<"y">>, TRUE), NumCol(<<7, 8>>, {})) >>                                   \* a single declared category
 FollowOf(t, u) == IF u = 0 THEN Train[t] ELSE Follow[u]
 
 Num(e, col) == [e |-> e, kind |-> "num", col |-> col, contr |-> "", lit |-> 1, shift |-> 0, forced |-> FALSE]
